@@ -40,13 +40,30 @@ static char *add_boundary_to_regex(zckCtx *zck, const char *regex,
 
     if(regex == NULL || boundary == NULL)
         return NULL;
-    char *regex_b = zmalloc(strlen(regex) + strlen(boundary) + 1);
-    if(!regex_b || snprintf(regex_b, strlen(regex) + strlen(boundary), regex,
-                boundary) != strlen(regex) + strlen(boundary) - 2) {
-        free(regex_b);
+    /* The boundary is matched literally, so characters that mean something
+     * in an extended regular expression (RFC 2046 allows '()+.?' among others
+     * in a boundary) have to be escaped */
+    char *escaped = zmalloc(strlen(boundary)*2 + 1);
+    if(!escaped) {
         set_error(zck, "Unable to build regular expression");
         return NULL;
     }
+    char *e = escaped;
+    for(const char *b = boundary; *b; b++) {
+        if(strchr(".[]{}()\\*+?|^$", *b))
+            *e++ = '\\';
+        *e++ = *b;
+    }
+    *e = '\0';
+    char *regex_b = zmalloc(strlen(regex) + strlen(escaped) + 1);
+    if(!regex_b || snprintf(regex_b, strlen(regex) + strlen(escaped), regex,
+                escaped) != strlen(regex) + strlen(escaped) - 2) {
+        free(regex_b);
+        free(escaped);
+        set_error(zck, "Unable to build regular expression");
+        return NULL;
+    }
+    free(escaped);
     return regex_b;
 }
 
